@@ -126,7 +126,10 @@ theorem affinePreimage_inv (f : Facts) : InvStep (fun g s => affinePreimage g f 
         · exact ((h3 hr).2 hd').consReady
         · exfalso
           -- generators are up to date (the constraints are not): `minimize` cannot find the set empty
-          sorry
+          have hpp : s.b .cpend = false ∧ s.b .gpend = false := by simpa [hasSomethingPending] using hp
+          have hg : s.b .gup = true := by spec_tac [s.b .em] using []
+          have := h.gup_nonempty hg hpp.1
+          rw [minimize_false_emp g s h hr] at this; exact absurd this (by simp)
       · next hp hc =>
         have hpp : s.b .cpend = false ∧ s.b .gpend = false := by simpa [hasSomethingPending] using hp
         exact ⟨he', by simpa using hc, hpp.2⟩
@@ -138,7 +141,10 @@ theorem affinePreimage_inv (f : Facts) : InvStep (fun g s => affinePreimage g f 
         rcases Bool.eq_false_or_eq_true (minimize g s).1 with hr | hr
         · exact ((h3 hr).2 hd').cpend
         · exfalso
-          sorry
+          have hpp : s.b .cpend = false ∧ s.b .gpend = false := by simpa [hasSomethingPending] using hp
+          have hg : s.b .gup = true := by spec_tac [s.b .em] using []
+          have := h.gup_nonempty hg hpp.1
+          rw [minimize_false_emp g s h hr] at this; exact absurd this (by simp)
       · next hp hc =>
         have hpp : s.b .cpend = false ∧ s.b .gpend = false := by simpa [hasSomethingPending] using hp
         exact hpp.1
